@@ -193,34 +193,51 @@ func (ex *Exec) nativeArg(v Value) (any, bool) {
 	return nil, false
 }
 
-var hexFormatRe = regexp.MustCompile(`^([A-Za-z_]*)%0(\d)X$`)
+var intFormatRe = regexp.MustCompile(`^([^%]*)%(0?)(\d?)([Xxo])$`)
 
 func (ex *Exec) sprintf(format Value, rest Value) StringV {
 	f, ok := format.(StringV)
 	if !ok || !f.concrete() {
 		return StringV{s: "<fmt>"}
 	}
-	// prefix%0nX of one symbolic integer: exact symbolic upper-case hex formatter
-	if m := hexFormatRe.FindStringSubmatch(f.str()); m != nil {
+	// prefix%[0][n]X / x / o of one symbolic integer: exact symbolic formatter
+	if m := intFormatRe.FindStringSubmatch(f.str()); m != nil {
 		if sl, ok := rest.(SliceV); ok && sl.len == 1 {
 			if iv, ok := ex.load(ex.kid(sl.arr, sl.off)).(IfaceV); ok {
 				if t, ok := iv.v.(*Term); ok && t.Op != OConst && t.S.K == KBV {
-					minDigits := int(m[2][0] - '0')
+					minDigits := 1
+					if m[3] != "" {
+						minDigits = int(m[3][0] - '0')
+						if m[2] != "0" {
+							ex.unsupported("space-padded integer formatting of a symbolic value")
+						}
+					}
+					shift := 4
+					if m[4] == "o" {
+						shift = 3
+					}
 					st := ex.st
 					v := st.ZExt(t, 64)
-					if _, signed, _ := intInfo(iv.t); signed {
-						ex.checkPanic("fmt-negative", st.Bin(OSLt, t, st.BV(t.S.W, 0)), "negative value formatted with %X (sign not modelled)")
-						v = st.SExt(t, 64)
+					if _, signed, _ := intInfo(iv.t); signed && t.S.W < 64 {
+						ex.checkPanic("fmt-negative", st.Bin(OSLt, t, st.BV(t.S.W, 0)), "negative value formatted (sign not modelled)")
 					}
 					nd := minDigits
-					for nd < 16 && ex.branch(st.Bin(OULe, st.BV(64, uint64(1)<<uint(4*nd)), v)) {
+					for shift*nd < 64 && ex.branch(st.Bin(OULe, st.BV(64, uint64(1)<<uint(shift*nd)), v)) {
 						nd++
 					}
 					bs := ex.strBytes(StringV{s: m[1]})
+					letter := byte('A')
+					if m[4] == "x" {
+						letter = 'a'
+					}
 					for k := nd - 1; k >= 0; k-- {
-						nib := st.Extract(st.Bin(OLShr, v, st.BV(64, uint64(4*k))), 3, 0)
-						d := st.ZExt(nib, 8)
-						bs = append(bs, st.Ite(st.Bin(OULt, d, st.BV(8, 10)), st.Bin(OAdd, d, st.BV(8, '0')), st.Bin(OAdd, d, st.BV(8, 'A'-10))))
+						dig := st.Extract(st.Bin(OLShr, v, st.BV(64, uint64(shift*k))), shift-1, 0)
+						d := st.ZExt(dig, 8)
+						if shift == 3 {
+							bs = append(bs, st.Bin(OAdd, d, st.BV(8, '0')))
+						} else {
+							bs = append(bs, st.Ite(st.Bin(OULt, d, st.BV(8, 10)), st.Bin(OAdd, d, st.BV(8, '0')), st.Bin(OAdd, d, st.BV(8, uint64(letter-10)))))
+						}
 					}
 					return ex.mkString(bs)
 				}
